@@ -195,6 +195,8 @@ class Roles:
             return out
         if isinstance(expr, ast.Call) and isinstance(expr.func, ast.Attribute) and expr.func.attr == "values" and isinstance(expr.func.value, ast.Name):
             return self.dict_values(expr.func.value.id, f, depth, "*")
+        if isinstance(expr, ast.Call) and isinstance(expr.func, ast.Name) and expr.func.id in ("list", "tuple", "sorted", "iter", "reversed") and len(expr.args) == 1:
+            return self.role(expr.args[0], f, depth + 1)          # a re-packaging of the same node collection
         if not isinstance(expr, ast.Name):
             return {("ANY", ast.unparse(expr))}
         name = expr.id
@@ -326,9 +328,27 @@ def _sites(db, chk, m):
     defs = []
     for lp_ in sync_loops:
         if isinstance(lp_.iter, ast.Name):
-            defs += [v for t, v, s in H.assignments(kf) if H.name_id(t) == lp_.iter.id]
+            dd = [(v, s) for t, v, s in H.assignments(kf) if H.name_id(t) == lp_.iter.id]
+            # the same choice written as if/else statements: fold the two branch assignments into one conditional expression
+            if len(dd) == 2:
+                for cand in [n for n in ast.walk(kf) if isinstance(n, ast.If) and len(n.body) == 1 and len(n.orelse) == 1]:
+                    if cand.body[0] is dd[0][1] and cand.orelse[0] is dd[1][1]:
+                        dd = [(ast.IfExp(test=cand.test, body=dd[0][0], orelse=dd[1][0]), cand)]
+            defs += [v for v, s in dd]
         else:
             defs.append(lp_.iter)
+
+    def _unwrap(e):
+        """list(x) / tuple(x) around either alternative is a re-packaging"""
+        class U(ast.NodeTransformer):
+            def visit_Call(self, n):
+                self.generic_visit(n)
+                if isinstance(n.func, ast.Name) and n.func.id in ("list", "tuple") and len(n.args) == 1 and not n.keywords:
+                    return n.args[0]
+                return n
+        import copy as _copy
+        return U().visit(_copy.deepcopy(e))
+    defs = [_unwrap(d) for d in defs]
     oksel = len(defs) == 1 and (H.match("last_node.values() if $n == context_sync else [last_node.get($r.stream)]", defs[0]) is not None or
                                H.match("[last_node.get($r.stream)] if $n != context_sync else last_node.values()", defs[0]) is not None or
                                H.match("[last_node.get($r.stream)] if $n == stream_sync else last_node.values()", defs[0]) is not None)
